@@ -206,3 +206,53 @@ fn positional(n: usize, kinds: u8) {
 fn c20_array_2_inserts() {
     positional(2, 4);
 }
+
+/// byte level, real serde_json serializer: one `u8` inserted into an `ArrayParams` builds to exactly `[<decimal digits>]`
+#[kani::proof]
+#[kani::unwind(12)]
+#[kani::stub(alloc::fmt::format, fmt_format)]
+#[kani::stub(serde_json::value::RawValue::from_string, raw_from_string_stub)]
+fn probe_c20_one_u8() {
+    let v: u8 = kani::any();
+    let mut p = ArrayParams::new();
+    assert!(p.insert(v).is_ok());
+    let out = p.to_rpc_params().unwrap().unwrap();
+    let b = out.get().as_bytes();
+    let n = b.len();
+    assert!(n >= 3 && n <= 5);
+    assert!(b[0] == b'[' && b[n - 1] == b']');
+    let mut acc: u32 = 0;
+    let mut i = 1;
+    while i < n - 1 {
+        assert!(b[i] >= b'0' && b[i] <= b'9');
+        acc = acc * 10 + (b[i] - b'0') as u32;
+        i += 1;
+    }
+    assert!(acc == v as u32);
+    // no leading zero except for zero itself
+    assert!(n == 3 || b[1] != b'0');
+    kani::cover!(n == 5, "witness: a three-digit value");
+    kani::cover!(v == 0, "witness: zero");
+    core::mem::forget(out);
+}
+
+/// byte level: one `bool` builds to exactly `[true]` / `[false]`
+#[kani::proof]
+#[kani::unwind(12)]
+#[kani::stub(alloc::fmt::format, fmt_format)]
+#[kani::stub(serde_json::value::RawValue::from_string, raw_from_string_stub)]
+fn probe_c20_one_bool() {
+    let v: bool = kani::any();
+    let mut p = ArrayParams::new();
+    assert!(p.insert(v).is_ok());
+    let out = p.to_rpc_params().unwrap().unwrap();
+    let b = out.get().as_bytes();
+    if v {
+        assert!(bytes_eq(b, b"[true]"));
+    } else {
+        assert!(bytes_eq(b, b"[false]"));
+    }
+    kani::cover!(v, "witness: true");
+    kani::cover!(!v, "witness: false");
+    core::mem::forget(out);
+}
